@@ -161,7 +161,24 @@ pub fn inputs_c02(r: &mut Rng, n: usize, _tier: &str, out: &mut dyn Write) {
                         _ => r.below(100_000),
                     }
                 };
-                let f: Vec<u64> = (0..7).map(|_| big(r)).collect();
+                let mut f: Vec<u64> = (0..7).map(|_| big(r)).collect();
+                if r.chance(1, 3) {
+                    // one field carries (nearly) the whole representable range, the others are small: the sum lies
+                    // anywhere up to the bound, in the last representable century, or just past it
+                    const FACT: [i128; 7] = [86_400_000_000_000, 3_600_000_000_000, 60_000_000_000, 1_000_000_000, 1_000_000, 1_000, 1];
+                    let j = r.below(7) as usize;
+                    let edge = (DMAX / FACT[j]).min(u64::MAX as i128) as u64;
+                    let century = (NPC / FACT[j]).min(u64::MAX as i128) as u64;
+                    for x in f.iter_mut() {
+                        *x = if r.chance(1, 2) { 0 } else { r.below(1000) };
+                    }
+                    f[j] = match r.below(4) {
+                        0 => edge - r.below(century.max(1)),
+                        1 => edge.saturating_add(r.below(5)).saturating_sub(2),
+                        2 => u64::MAX - r.below(3),
+                        _ => r.below(edge),
+                    };
+                }
                 writeln!(
                     out,
                     "compose {} {} {} {} {} {} {} {}",
